@@ -75,9 +75,9 @@ def write_replay(run, fn, clause, payload):
     return path
 
 
-def native_replay(ctx, contract, unit, model, alias, clause_names=None):
+def native_replay(ctx, contract, unit, model, alias, clause_names=None, shapes=None):
     case = {"id": "replay", "values": model or {}, "alias": alias}
-    job = NATIVE.job_for(ctx, contract, unit, [case])
+    job = NATIVE.job_for(ctx, contract, unit, [case], shapes=shapes)
     ans = NATIVE.run_native(job)
     return job, ans
 
@@ -181,7 +181,10 @@ def do_check(run: Run, args):
     if args.replay:
         return do_replay(run, ctx, reg, args.replay)
 
-    own = [c for c in reg.contracts if not getattr(c, "_foreign", False)]
+    own = [c for c in reg.contracts if not getattr(c, "_foreign", False) and not c.interface]
+    for c in reg.contracts:
+        if c.interface and not getattr(c, "_foreign", False):
+            run.assumptions.append(f"[A] interface contract {c.ident}: " + "; ".join(c.assumptions or ["assumed, not verified against a body"]))
     if args.only:
         own = [c for c in own if args.only in c.ident]
     reports = []
@@ -278,14 +281,14 @@ def do_check(run: Run, args):
             continue
         unit = rep.unit or ctx.facts.unit(c.target)
         try:
-            cases = NATIVE.sample_prestates(ctx, c, unit, nsamp, run.seed)
+            cases = NATIVE.sample_prestates(ctx, c, unit, nsamp, run.seed, rep.shapes)
         except Exception as e:
             run.notes.append(f"sampling failed for {c.ident}: {type(e).__name__}: {e}")
             cases = []
         if not cases:
             run.crosscheck_rows.append({"function": c.ident, "samples": 0, "disagreements": 0, "note": "no samples"})
             continue
-        job = NATIVE.job_for(ctx, c, unit, cases)
+        job = NATIVE.job_for(ctx, c, unit, cases, shapes=rep.shapes)
         ans = NATIVE.run_native(job)
         if ans.get("error"):
             run.checker_errors.append(f"native harness failed for {c.ident}: {ans['error']}")
@@ -406,7 +409,7 @@ def handle_failure(run, ctx, rep, fn, cl, kind, lst, row, known):
                        alias=alias, path=list(o.path_id), note=o.note)
         if rep.unit is not None:
             try:
-                job, ans = native_replay(ctx, c, rep.unit, model, alias)
+                job, ans = native_replay(ctx, c, rep.unit, model, alias, shapes=rep.shapes)
                 case = (ans.get("cases") or [None])[0]
                 payload["native"] = case if case else ans
                 confirmed, why = clause_failed_natively(case, cl, kind, c)
@@ -414,7 +417,7 @@ def handle_failure(run, ctx, rep, fn, cl, kind, lst, row, known):
                 for o2, r2 in sat[1:4]:
                     if confirmed:
                         break
-                    job, ans = native_replay(ctx, c, rep.unit, r2.get("model", {}), alias_from_notes(c, o2.path_id))
+                    job, ans = native_replay(ctx, c, rep.unit, r2.get("model", {}), alias_from_notes(c, o2.path_id), shapes=rep.shapes)
                     case = (ans.get("cases") or [None])[0]
                     ok2, why2 = clause_failed_natively(case, cl, kind, c)
                     if ok2:
